@@ -48,6 +48,7 @@ pub struct Node {
     pub port: u16,
     pub conns: BTreeMap<String, crate::net::Conn>,
     pub net_inbox: BTreeMap<String, Vec<String>>,
+    pub barrier_no: u64,
 }
 
 pub fn drain(rx: &mut Receiver<String>) -> Vec<String> {
@@ -131,7 +132,7 @@ impl Node {
                     transport: "direct".to_string(),
                     port: 0,
                     conns: BTreeMap::new(),
-                    net_inbox: BTreeMap::new(),
+                    net_inbox: BTreeMap::new(), barrier_no: 0,
                 })
             }
             Err(e) => Err(panic_msg(e)),
@@ -285,10 +286,33 @@ impl Node {
     pub fn drain_all(&mut self) -> Map<String, J> {
         let mut m = Map::new();
         if self.transport != "direct" {
+            // TCP: a barrier line per connection (its answer travels behind every line queued for the connection
+            // before it).  WebSocket: pushed lines and answers take different routes, so every connection is read
+            // until none of them has delivered anything for 60 ms.
+            self.barrier_no += 1;
+            let tag = format!("{}", self.barrier_no);
+            let mut any_ws = false;
             for (c, k) in self.conns.iter_mut() {
-                let got = k.poll(std::time::Duration::from_millis(3));
-                if !got.is_empty() {
-                    self.net_inbox.entry(c.clone()).or_insert(vec![]).extend(got);
+                if k.is_tcp() {
+                    let got = k.barrier(&tag);
+                    if !got.is_empty() {
+                        self.net_inbox.entry(c.clone()).or_insert(vec![]).extend(got);
+                    }
+                } else {
+                    any_ws = true;
+                }
+            }
+            if any_ws {
+                let mut last = std::time::Instant::now();
+                let deadline = last + std::time::Duration::from_millis(3000);
+                while last.elapsed() < std::time::Duration::from_millis(60) && std::time::Instant::now() < deadline {
+                    for (c, k) in self.conns.iter_mut() {
+                        let got = k.poll(std::time::Duration::from_millis(2));
+                        if !got.is_empty() {
+                            last = std::time::Instant::now();
+                            self.net_inbox.entry(c.clone()).or_insert(vec![]).extend(got);
+                        }
+                    }
                 }
             }
             for (c, lines) in self.net_inbox.iter_mut() {
